@@ -30,11 +30,23 @@ NP = NotPassed()
 
 # ----------------------------------------------------------------------------- encoding
 
+def big_str(i):
+    """str(int) without CPython's 4300-digit limit (restored afterwards: the library must see the default)."""
+    if -10 ** 4000 < i < 10 ** 4000:
+        return str(i)
+    old = sys.get_int_max_str_digits()
+    sys.set_int_max_str_digits(0)
+    try:
+        return str(i)
+    finally:
+        sys.set_int_max_str_digits(old)
+
+
 def enc_num(x):
     if isinstance(x, bool):
         raise TypeError("bool is not a number here")
     if isinstance(x, int):
-        return {"i": str(x)}
+        return {"i": big_str(x)}
     if x != x or x in (float("inf"), float("-inf")):
         raise ValueError("non-finite float")
     n, d = x.as_integer_ratio()
@@ -200,7 +212,7 @@ def canon_rval(x):
     if x is None or isinstance(x, bool):
         return x
     if isinstance(x, int):
-        return {"i": str(x)}
+        return {"i": big_str(x)}
     if isinstance(x, float):
         if x != x or x in (float("inf"), float("-inf")):
             return {"nonfinite": repr(x)}
